@@ -119,6 +119,11 @@ fn total_pause(sc: &ConnScenario) -> u64 {
 
 /// The variant keeps the reference outcome "the specified one" only if every keep-alive echo was
 /// available to the server well before the next keep-alive was due.
+/// The scenario of the tie mode as generated: every echo exactly one period late, zero-time cuts only.
+fn tie_mode(sc: &ConnScenario) -> bool {
+    matches!(sc.client.ka_default, crate::client::KaPolicy::Delay { ns } if ns == PERIOD) && sc.wplan.is_empty() && !sc.client.cuts.is_empty() && sc.client.cuts.iter().all(|c| matches!(c.gate, Gate::Now) && c.spurious <= 1) && sc.prelude.is_empty()
+}
+
 fn precondition(out: &ConnOutcome, sc: &ConnScenario) -> bool {
     let pend: u64 = out.pipe.write_blocked_total_ns;
     // a gate on an event that never happened in this execution is a permanent stall, not a pause
@@ -388,6 +393,16 @@ fn generate(rng: &mut Rng, index: u64) -> C08Sc {
         base.wplan.clear();
         sc.prelude = vec![abrupt_prelude(rng, &base)];
     }
+    // an echo that arrives at the very instant the next Keep Alive is due - whole in the undisturbed execution, one byte at a
+    // time (at that same instant) in the variant: whichever way such a tie is decided, it is decided the same way
+    if rng.chance(1, 16) {
+        sc.client.ka_default = crate::client::KaPolicy::Delay { ns: PERIOD };
+        sc.client.cuts = (300..700u64).map(|o| Cut { at: o, gate: Gate::Now, spurious: u8::from(o % 2 == 0) }).collect();
+        sc.client.coalesce = false;
+        sc.wplan.clear();
+        sc.prelude.clear();
+        sc.services.discovery.default.lat_ns = Some(secs(*rng.pick(&[20u64, 40, 70])));
+    }
     // a client that hangs up in the middle: in the variant the hang-up is reported by the server's next write (BrokenPipe)
     // while the end of stream reaches the reader only 20 s later - however it is noticed, the outcome is the same
     if rng.chance(1, 12) {
@@ -555,6 +570,18 @@ pub fn compare(sc: &ConnScenario, refo: &ConnOutcome, var: &ConnOutcome, rep: &m
         *rep.probes.entry("silent_client_keep_alive_schedule_moved_skipped".into()).or_insert(0) += 1;
         return;
     }
+    if tie_mode(sc) {
+        *rep.faults.entry("echo_at_the_instant_the_next_keep_alive_is_due".into()).or_insert(0) += 1;
+        if let Some(u) = &var.view.undecodable {
+            rep.violate("frames_arrive_complete", format!("client cannot decode the server's byte stream in the variant: {u}"));
+            return;
+        }
+        let (rp, vp) = (masked_packets(refo), masked_packets(var));
+        if rp != vp || refo.result != var.result {
+            rep.violate("same_outcome", format!("an echo arriving at the instant the next Keep Alive is due: delivered whole the connection goes {:?} and ends {}, delivered byte by byte at the same instant it goes {:?} and ends {}", refo.view.kinds(), refo.result, var.view.kinds(), var.result));
+        }
+        return;
+    }
     if sc.wplan.iter().any(|w| matches!(w, WRule::BrokenOncePeerClosed)) {
         // (what the client was sent before it left is not compared: it is gone)
         if sc.client.close_after.is_none() || sc.client.eof_delay_ns == 0 || sc.wplan.len() != 1 || !sc.client.cuts.is_empty() {
@@ -666,7 +693,7 @@ impl Check for C08 {
             return run_listener(n);
         }
         let sc = &c.sc;
-        if !conn_domain_ok(sc) || sc.cap_ns < secs(600) || sc.client.script.is_some() || !sc.client.mutations.is_empty() || !matches!(sc.client.enc, crate::client::EncVariant::Honest) || !sc.client.ka.is_empty() || !matches!(sc.client.ka_default, crate::client::KaPolicy::Prompt | crate::client::KaPolicy::Never) {
+        if !conn_domain_ok(sc) || sc.cap_ns < secs(600) || sc.client.script.is_some() || !sc.client.mutations.is_empty() || !matches!(sc.client.enc, crate::client::EncVariant::Honest) || !sc.client.ka.is_empty() || !(matches!(sc.client.ka_default, crate::client::KaPolicy::Prompt | crate::client::KaPolicy::Never) || tie_mode(sc)) {
             return RunReport::default();
         }
         if sc.wplan.iter().any(|w| matches!(w, WRule::Broken | WRule::Stall)) {
